@@ -68,6 +68,7 @@ pub fn read_state_ids(store: &Store) -> Result<Vec<(String, String, Result<LTree
 pub fn read_state_env(env: &Env) -> Result<Vec<(String, String, Result<LTree, String>)>, String> {
     let repo = env.open_full().map_err(|e| format!("open/index: {}", e.display_log()))?;
     let snaps = repo.get_all_snapshots().map_err(|e| format!("listing snapshots: {}", e.display_log()))?;
+    vkit::rep::snapshot_count_agrees(env, snaps.len())?;
     Ok(snaps.iter().map(|s| (s.id.to_hex().to_string(), s.label.clone(), read_snapshot(&repo, s))).collect())
 }
 
